@@ -30,7 +30,7 @@ func init() {
 		Assumptions: []string{"real clocks, data 3-4h old, 48h retention, coarse resolutions; a pair is compared only if leader and standalone report the same until", "timers of the follower start-up and leader idle loop are divided by 10 (VERIF_TIMER_DIV)", "query shapes with findings recorded under C11 (SHIFT in non-pushdown plans, GROUP BY _ with CROSSTAB, LEN() of a partition key, subset-key table without partitionBy) are not generated here"},
 		Cases: func(tier string) int {
 			if tier == "quick" {
-				return 4
+				return 8
 			}
 			return 40
 		},
